@@ -81,6 +81,10 @@ class Ids:
             return (i, 'x')
         if f == 'mixed':
             return i if i % 2 == 0 else 'n%03d' % i
+        if f == 'lb':         # text with characters that str.splitlines() treats as line boundaries (but a binary file does not): FF, GS, NEL, CR
+            return (['m\x85n%03d', 'x\x1dy%03d', 'p\x0cq%03d'][i % 3] % i) if i >= 0 else 'r\ry%03d' % (-i)
+        if f == 'digits':     # digit strings: str(node) coincides with the str() of the int family's ids
+            return str(i)
         if f == 'fset':       # partially ordered ids: u < v and v < u are both False, nothing raises
             return frozenset({('id', i)})
         if f == 'obj':        # unordered ids: u < v raises TypeError
@@ -92,7 +96,17 @@ class Ids:
     def back(self, x):
         f = self.family
         if f == 'int':
+            if type(x) is not int:
+                raise ValueError('node id %r is not one of the ids that were used (an int)' % (x,))
             return x
+        if f == 'lb':
+            if type(x) is not str or len(x) != 6 or x[:3] not in ('m\x85n', 'x\x1dy', 'p\x0cq', 'r\ry'):
+                raise ValueError('node id %r is not one of the ids that were written' % (x,))
+            return int(x[3:]) if x[0] != 'r' else -int(x[3:])
+        if f == 'digits':
+            if type(x) is not str:
+                raise ValueError('node id %r is not one of the ids that were used (a digit string)' % (x,))
+            return int(x)
         if f == 'str':
             return int(x[1:]) if x[0] == 'n' else -int(x[1:])
         if f == 'sym':
@@ -693,6 +707,8 @@ class Impl:
         if k == 'compact':
             return sorted(D.compact_timeslot(list(op[2])).items())
         if k == 'bigio':
+            if str(op[1]).startswith('dag-'):
+                return big_dag_check(D, *op[1:])
             return big_span_check(D, *op[1:]) if str(op[1]).startswith('span-') else big_io_check(D, *op[1:])
         if k == 'occname':
             # the library's own naming of DAG occurrences and its decoding, on a one-interaction graph
@@ -724,8 +740,12 @@ class Impl:
             G = self.g(r)
             names = ['l%d' % i for i in range(len(tabs))]
             # label values are opaque categories: strings, ints (0 is a legal class code), '' and () included
-            rep = [lambda v: 'v%d' % v, lambda v: v, lambda v: '' if v == 0 else 'v%d' % v, lambda v: () if v == 0 else (v,)][
-                (sum(len(t) + sum(t.values()) for t in tabs)) % 4]
+            _s = sum(len(t) + sum(t.values()) for t in tabs)
+            rep = [lambda v: 'v%d' % v, lambda v: v, lambda v: '' if v == 0 else 'v%d' % v, lambda v: () if v == 0 else (v,)][_s % 4]
+            if (_s // 4) % 4 == 3:
+                # distinct categories whose TEXT coincides: 0 and '0', 1 and '1' (or 0.5 and '0.5')
+                rep = [lambda v: (v // 2) if v % 2 == 0 else str(v // 2),
+                       lambda v: (v // 2 + 0.5) if v % 2 == 0 else str(v // 2 + 0.5)][(_s // 16) % 2]
             for nm, tab in zip(names, tabs):
                 for n, val in tab.items():
                     if I.to(n) in G._node:
@@ -1100,7 +1120,7 @@ def _io_methods():
                 else:
                     lines = [delim.join([str(I.to(u)), str(I.to(v)), o, str(t)]) for (u, v, o, t) in rows]
                 data = ('\n'.join(lines) + ('\n' if lines else '')).encode(enc)
-                ntype = {'int': int, 'str': str, 'ustr': str}.get(I.family)
+                ntype = {'int': int, 'str': str, 'ustr': str, 'lb': str}.get(I.family)
                 fn = D.read_snapshots if k == 'rsnap' else D.read_interactions
                 kw = dict(directed=bool(d), nodetype=ntype, timestamptype=int, delimiter=(None if fmt.get('read_ws') else delim), encoding=enc)
                 if target == 'fileobj':
@@ -1158,7 +1178,7 @@ def _io_methods():
                 self.R[op[2]] = json_graph.node_link_graph(data, directed=bool(op[3]))
                 return 'Done'
             delim, enc, target = fmt.get('delim', ' '), fmt.get('enc', 'utf-8'), fmt.get('target', 'plain')
-            ntype = {'int': int, 'str': str, 'ustr': str}.get(I.family)
+            ntype = {'int': int, 'str': str, 'ustr': str, 'lb': str}.get(I.family)
             wfn = D.write_snapshots if k == 'rtsnap' else D.write_interactions
             rfn = D.read_snapshots if k == 'rtsnap' else D.read_interactions
             kw = dict(directed=G.is_directed(), nodetype=ntype, timestamptype=int, delimiter=delim, encoding=enc)
@@ -1278,6 +1298,48 @@ def big_span_check(D, kind, directed, L, T0):
         return 'FAIL: ' + _exc_name(x) + ': ' + str(x)[:80]
 
 
+def big_dag_check(D, kind, directed, N, T):
+    """a LARGE temporal graph (N nodes, N*T/2 interactions, tens of thousands of live node occurrences in one temporal_dag call):
+    implementation side only (the brute-force oracle and the per-pair probes of the small cases do not scale); the expected answer
+    is known by construction.  Returns 'OK' or what went wrong."""
+    try:
+        from dynetx.algorithms import paths as al
+        import networkx as nx
+        G = (D.DynDiGraph if directed else D.DynGraph)()
+        for k in range(1, N):                       # star around the root at t = 0
+            G.add_interaction(0, k, 0)
+        for t in range(1, T + 1):                   # fixed pairs at every later instant
+            for j in range(1, N // 2):
+                G.add_interaction(2 * j - 1, 2 * j, t)
+        root_times = [0] + [t for t in range(1, T + 1) if t % 4 == 3 or t == T]
+        for t in root_times[1:]:                    # the root meets node 1 again now and then
+            G.add_interaction(0, 1, t)
+        DAG, sources, targets, _nt, _tt = al.temporal_dag(G, 0)
+        exp_sources = sorted('0_%d' % t for t in root_times)
+        if sorted(sources) != exp_sources:
+            return 'FAIL: sources of the root are %r..., expected %r' % (sorted(sources)[:8], exp_sources)
+        if not nx.is_directed_acyclic_graph(DAG):
+            return 'FAIL: the DAG has a cycle'
+        srcs = set(sources)
+        for a, b in DAG.edges():
+            x, s_ = a.rsplit('_', 1)
+            y, t_ = b.rsplit('_', 1)
+            x, y, s_, t_ = int(x), int(y), int(s_), int(t_)
+            if not G.has_interaction(x, y, t_):
+                return 'FAIL: edge %s -> %s without an interaction %d-%d at %d' % (a, b, x, y, t_)
+            if not (s_ < t_ or (a in srcs and s_ == t_)):
+                return 'FAIL: edge %s -> %s does not respect time' % (a, b)
+        for x in list(sources) + list(targets):
+            if x not in DAG:
+                return 'FAIL: %s listed but not in the DAG' % x
+        # every pair partner is reachable from the root: node 2 at every instant >= 1 (0 -> 1 at 0, 1 -> 2 at t)
+        if '2_%d' % T not in DAG:
+            return 'FAIL: occurrence 2_%d missing' % T
+        return 'OK'
+    except Exception as x:
+        return 'FAIL: %s: %s' % (type(x).__name__, x)
+
+
 def big_io_check(D, kind, directed, n, keys, target):
     """multi-megabyte files: what is written is one row per interaction and instant / per event, and reading it back
     (optionally with keys=True) gives the same timelines and the same stream.  Returns 'OK' or what went wrong."""
@@ -1370,7 +1432,7 @@ def big_io_check(D, kind, directed, n, keys, target):
 def _unstr(I, s):
     if I.family == 'int':
         return int(s)
-    if I.family in ('str', 'ustr'):
+    if I.family in ('str', 'ustr', 'lb'):
         return s
     raise ValueError('text formats are exercised with int and str ids only')
 
